@@ -13,14 +13,21 @@ LABEL_KIND = {'s_acq': 'acq', 's_put': 'put', 's_w1': 'wput', 's_w2': 'wput', 's
               'r_rel2n': 'rel', 'r_rel2s': 'rel', 'r_sleep': 'sleep'}
 
 
+RT_ID = 500          # every real-time (clock) message carries this id: they are indistinguishable
+
+
 def make_msg(mid, sender):
     import mido
+    if mid == RT_ID:
+        return mido.Message('clock')
     return mido.Message('program_change', channel=sender % 16, program=mid)
 
 
 def msg_id(msg, sender_of):
     """Identity of a received message; 900+ if it is not intact."""
     try:
+        if msg.type == 'clock' and set(vars(msg)) == {'type', 'time'} and msg.time == 0:
+            return RT_ID
         if msg.type != 'program_change':
             return 900
         mid = msg.program
@@ -73,6 +80,18 @@ class Setup:
             self.sendp = {1: a, 2: b}
             self.recvp = p
             self.nlanes = 2
+        elif kind == 'socket':
+            # a real SocketPort on one end of a socketpair; `peer` is the other end
+            import socket
+            from mido.sockets import SocketPort
+            a, b = socket.socketpair()
+            p = SocketPort('peer', 1, conn=a)
+            self.q = S.instrument(p)
+            self.peer = b
+            self.sock = a
+            self.sendp = {1: p}
+            self.recvp = p
+            self.nlanes = 1
         elif kind == 'pqueue':
             # the thread-safe parser queue used by callback-driven backends:
             # "send" = the device thread delivering the bytes of one message
@@ -163,10 +182,22 @@ def run_program(kind, initq, prog, schedule=None, rng=None, policy='random',
                             r = ('raise:' + type(e).__name__, [])
                         # the caller may modify its message after send()
                         try:
-                            msg.program = 127
-                            msg.channel = 15
+                            if op['m'] == RT_ID:
+                                msg.time = 99
+                            else:
+                                msg.program = 127
+                                msg.channel = 15
                         except Exception:
                             pass
+                    elif o == 'close':
+                        sc.log(e='call', t=t, op='close', m=0, lane=0)
+                        try:
+                            setup.recvp.close()
+                            r = ('ok', [])
+                        except S.Hang:
+                            r = ('raise:Hang', [])
+                        except Exception as e:
+                            r = ('raise:' + type(e).__name__, [])
                     else:
                         sc.log(e='call', t=t, op={'poll': 'poll', 'recv': 'receive',
                                                   'iterp': 'iterp'}[o], m=0, lane=0)
@@ -239,6 +270,14 @@ def run_program(kind, initq, prog, schedule=None, rng=None, policy='random',
                 if st.done and st.exc is not None and not isinstance(st.exc, S.Hang):
                     raise st.exc
                 results[t] = st.result if st.done else None
+            # when every thread has finished, whatever is still in the port (queue,
+            # device wire, member ports) is drained: nothing may be lost or doubled
+            drained = None
+            if not hung:
+                try:
+                    drained = [msg_id(m, sender_of) for m in setup.recvp.iter_pending()]
+                except Exception as e:
+                    drained = ['raised ' + type(e).__name__]
             final_q = setup.final_queue(sender_of)
             lanes0 = [[m for m in initq]] + [[] for _ in range(setup.nlanes - 1)]
             setup.close()
@@ -248,8 +287,9 @@ def run_program(kind, initq, prog, schedule=None, rng=None, policy='random',
     events = [header] + sorted(sc.events, key=lambda e: e['seq'])
     for e in events:
         e.pop('seq', None)
+    sent = sorted(op['m'] for ops in prog for op in ops if op['op'] == 'send') + sorted(initq)
     return {'results': results, 'events': events, 'final_q': final_q, 'divergences': div,
-            'hung': hung, 'optrace': sc.trace}
+            'hung': hung, 'optrace': sc.trace, 'drained': drained, 'sent': sorted(sent)}
 
 
 def direct_verdict(run):
@@ -259,4 +299,16 @@ def direct_verdict(run):
             return 'raises/' + e['k'][6:], 'thread %d: call raised %s' % (e['t'], e['k'][6:])
     if run['hung']:
         return 'hang', 'threads %r never finished' % (run['hung'],)
+    got = []
+    for e in run['events']:
+        if e.get('e') == 'ret' and e['k'] in ('msg', 'list'):
+            got += e['v']
+    rest = run.get('drained')
+    if rest is not None:
+        allgot = got + rest
+        if any(not isinstance(x, int) or x >= 900 for x in allgot):
+            return 'corrupt-message', 'received %r, drained afterwards %r' % (got, rest)
+        if sorted(allgot) != run['sent']:
+            return ('lost-or-duplicated', 'sent %r; received %r and drained afterwards %r' % (
+                run['sent'], got, rest))
     return None
